@@ -38,8 +38,17 @@ func loadedField(v ssa.Value) (string, string, ssa.Value) {
 // ---- E14-M3: Order is a stable sort with a strict < on StartAt of (i, j) -------------------
 
 func ruleStableOrder(p *Prog, l *Ledger, tier string) {
-	const rule = "E14.M3-stable-order"
-	fn := anchor(p, l, rule, "Subtitles.Order")
+	stableOrderIn(p, l, "E14.M3-stable-order", "Subtitles.Order", func(v ssa.Value) bool {
+		_, f, _ := loadedField(v)
+		return f == "Items"
+	})
+}
+
+// stableOrderIn: function fname permutes the list (what isList accepts, looked at through local
+// single-assignment variables) with exactly one stable library sort whose comparator is the strict
+// order on StartAt of (i, j).
+func stableOrderIn(p *Prog, l *Ledger, rule, fname string, isList func(v ssa.Value) bool) {
+	fn := anchor(p, l, rule, fname)
 	if fn == nil {
 		return
 	}
@@ -57,20 +66,20 @@ func ruleStableOrder(p *Prog, l *Ledger, tier string) {
 			}
 		}
 	}
-	key := rule + "|Subtitles.Order"
+	key := rule + "|" + fname
 	if len(sorts) != 1 {
-		l.Fail(rule, "Subtitles.Order", key, p.Pos(fn.Pos()), fmt.Sprintf("Order must permute the list with exactly one library sort call, found %d", len(sorts)))
+		l.Fail(rule, fname, key, p.Pos(fn.Pos()), fmt.Sprintf("%s must permute the list with exactly one library sort call, found %d", fname, len(sorts)))
 		return
 	}
 	c := sorts[0]
 	name := c.Call.StaticCallee().String()
 	pos := p.Pos(c.Pos())
 	if name != "sort.SliceStable" && name != "sort.Stable" && name != "slices.SortStableFunc" {
-		l.Fail(rule, "Subtitles.Order", key, pos, "Order sorts with "+name+", which is not a stable sort: cues with equal starts may change their relative order")
+		l.Fail(rule, fname, key, pos, fname+" sorts with "+name+", which is not a stable sort: cues with equal starts may change their relative order")
 		return
 	}
 	if name == "slices.SortStableFunc" {
-		l.Undecide(rule, "Subtitles.Order", key, pos, "stable sort through "+name+": comparator shape not analysed")
+		l.Undecide(rule, fname, key, pos, "stable sort through "+name+": comparator shape not analysed")
 		return
 	}
 	// sorted value is the receiver's Items
@@ -83,21 +92,20 @@ func ruleStableOrder(p *Prog, l *Ledger, tier string) {
 		break
 	}
 	sorted = throughLocalCell(sorted)
-	if _, f, _ := loadedField(sorted); f != "Items" {
-		l.Fail(rule, "Subtitles.Order", key, pos, "the sorted slice is not the receiver's Items field")
+	if !isList(sorted) {
+		l.Fail(rule, fname, key, pos, "the sorted slice is not the receiver's Items field")
 		return
 	}
 	var less *ssa.Function
 	off := 0 // index of the first index parameter of less
 	isItems := func(v ssa.Value) bool {
-		_, sf, _ := loadedField(throughLocalCell(v))
-		return sf == "Items"
+		return isList(throughLocalCell(v))
 	}
 	if name == "sort.Stable" {
 		// sort.Interface on a named slice type: Len is len, Swap swaps, Less is analysed below
 		mi, ok := c.Call.Args[0].(*ssa.MakeInterface)
 		if !ok {
-			l.Undecide(rule, "Subtitles.Order", key, pos, "sort.Stable on a value whose dynamic type is not visible")
+			l.Undecide(rule, fname, key, pos, "sort.Stable on a value whose dynamic type is not visible")
 			return
 		}
 		ms := p.SSA.MethodSets.MethodSet(mi.X.Type())
@@ -112,19 +120,19 @@ func ruleStableOrder(p *Prog, l *Ledger, tier string) {
 		lenF, swapF := get("Len"), get("Swap")
 		less = get("Less")
 		if lenF == nil || swapF == nil || less == nil || len(less.Params) != 3 {
-			l.Undecide(rule, "Subtitles.Order", key, pos, "sort.Interface methods of "+mi.X.Type().String()+" not found")
+			l.Undecide(rule, fname, key, pos, "sort.Interface methods of "+mi.X.Type().String()+" not found")
 			return
 		}
 		if _, isSlice := mi.X.Type().Underlying().(*types.Slice); !isSlice {
-			l.Undecide(rule, "Subtitles.Order", key, pos, "sort.Stable on "+mi.X.Type().String()+", which is not a slice of the items")
+			l.Undecide(rule, fname, key, pos, "sort.Stable on "+mi.X.Type().String()+", which is not a slice of the items")
 			return
 		}
 		if !isLenOfRecv(lenF) {
-			l.Fail(rule, "Subtitles.Order", key, p.Pos(lenF.Pos()), "Len of the sorted type is not the length of the list: some cues are left out of the ordering")
+			l.Fail(rule, fname, key, p.Pos(lenF.Pos()), "Len of the sorted type is not the length of the list: some cues are left out of the ordering")
 			return
 		}
 		if !isSwapOfRecv(swapF) {
-			l.Fail(rule, "Subtitles.Order", key, p.Pos(swapF.Pos()), "Swap of the sorted type does not exchange elements i and j")
+			l.Fail(rule, fname, key, p.Pos(swapF.Pos()), "Swap of the sorted type does not exchange elements i and j")
 			return
 		}
 		off = 1
@@ -133,7 +141,7 @@ func ruleStableOrder(p *Prog, l *Ledger, tier string) {
 	} else {
 		mc, ok := c.Call.Args[1].(*ssa.MakeClosure)
 		if !ok {
-			l.Undecide(rule, "Subtitles.Order", key, pos, "comparator is not a function literal")
+			l.Undecide(rule, fname, key, pos, "comparator is not a function literal")
 			return
 		}
 		less = mc.Fn.(*ssa.Function)
@@ -145,12 +153,12 @@ func ruleStableOrder(p *Prog, l *Ledger, tier string) {
 		}
 	}
 	if len(rets) != 1 {
-		l.Undecide(rule, "Subtitles.Order", key, pos, "comparator has more than one return")
+		l.Undecide(rule, fname, key, pos, "comparator has more than one return")
 		return
 	}
 	bo, ok := rets[0].Results[0].(*ssa.BinOp)
 	if !ok {
-		l.Fail(rule, "Subtitles.Order", key, pos, "comparator does not return a comparison")
+		l.Fail(rule, fname, key, pos, "comparator does not return a comparison")
 		return
 	}
 	// operand: load StartAt of element (Items[param k])
@@ -179,15 +187,15 @@ func ruleStableOrder(p *Prog, l *Ledger, tier string) {
 	_ = a
 	switch {
 	case !okx || !oky || px < 0 || py < 0:
-		l.Fail(rule, "Subtitles.Order", key, pos, "comparator does not compare fields of Items[i] and Items[j]")
+		l.Fail(rule, fname, key, pos, "comparator does not compare fields of Items[i] and Items[j]")
 	case fx != "StartAt" || fy != "StartAt":
-		l.Fail(rule, "Subtitles.Order", key, pos, fmt.Sprintf("comparator compares %s with %s instead of StartAt with StartAt", fx, fy))
+		l.Fail(rule, fname, key, pos, fmt.Sprintf("comparator compares %s with %s instead of StartAt with StartAt", fx, fy))
 	case (bo.Op == token.LSS && px == 0 && py == 1) || (bo.Op == token.GTR && px == 1 && py == 0):
-		l.Prove(rule, "Subtitles.Order", key, pos, name+" over s.Items with less = Items[i].StartAt < Items[j].StartAt: stable, strict, on StartAt of (i, j)")
+		l.Prove(rule, fname, key, pos, name+" over s.Items with less = Items[i].StartAt < Items[j].StartAt: stable, strict, on StartAt of (i, j)")
 	case bo.Op == token.LEQ || bo.Op == token.GEQ:
-		l.Fail(rule, "Subtitles.Order", key, pos, "comparator uses a non-strict comparison: with sort.SliceStable equal starts are reordered (less must be a strict order)")
+		l.Fail(rule, fname, key, pos, "comparator uses a non-strict comparison: with sort.SliceStable equal starts are reordered (less must be a strict order)")
 	default:
-		l.Fail(rule, "Subtitles.Order", key, pos, fmt.Sprintf("comparator is Items[#%d].StartAt %s Items[#%d].StartAt: not an ascending strict order on (i, j)", px, bo.Op, py))
+		l.Fail(rule, fname, key, pos, fmt.Sprintf("comparator is Items[#%d].StartAt %s Items[#%d].StartAt: not an ascending strict order on (i, j)", px, bo.Op, py))
 	}
 }
 
@@ -219,7 +227,7 @@ func ruleMergeShape(p *Prog, l *Ledger, tier string) {
 			}
 			nApp++
 			key := l.Key(rule, "Subtitles.Merge", "items-store", "")
-			c, ok := st.Val.(*ssa.Call)
+			c, ok := throughLocalCell(st.Val).(*ssa.Call)
 			if !ok {
 				l.Fail(rule, "Subtitles.Merge", key, p.Pos(st.Pos()), "Merge assigns Items something that is not an append")
 				continue
@@ -252,7 +260,45 @@ func ruleMergeShape(p *Prog, l *Ledger, tier string) {
 			}
 		}
 	}
-	if ordered {
+	// Order inlined: a stable sort of the merged list in Merge itself, after the append
+	inlineSort := false
+	if !ordered && appendStore != nil {
+		merged := throughLocalCell(appendStore.Val)
+		for _, b := range fn.Blocks {
+			for _, ins := range b.Instrs {
+				c, ok := ins.(*ssa.Call)
+				if !ok {
+					continue
+				}
+				if sc := c.Call.StaticCallee(); sc != nil && sc.Pkg != nil && sc.Pkg.Pkg.Path() == "sort" && (sc.Name() == "SliceStable" || sc.Name() == "Stable") {
+					if instrDominates(appendStore, c) || appendStore.Block().Dominates(c.Block()) {
+						inlineSort = true
+					}
+				}
+			}
+		}
+		if inlineSort {
+			before := len(l.Obs)
+			stableOrderIn(p, l, rule, "Subtitles.Merge", func(v ssa.Value) bool {
+				if v == merged {
+					return true
+				}
+				_, f, base := loadedField(v)
+				return f == "Items" && base == ssa.Value(recv)
+			})
+			for _, o := range l.Obs[before:] {
+				if o.Status == Violation || o.Status == Undecided {
+					inlineSort = false
+				}
+			}
+			if inlineSort {
+				ordered = true
+			}
+		}
+	}
+	if ordered && inlineSort {
+		l.Prove(rule, "Subtitles.Merge", rule+"|order-after-append", "", "the merged list is sorted in Merge itself by a stable sort with the strict order on StartAt, after the append")
+	} else if ordered {
 		l.Prove(rule, "Subtitles.Merge", rule+"|order-after-append", "", "Order() is called on the receiver after the append on every path")
 	} else {
 		l.Fail(rule, "Subtitles.Merge", rule+"|order-after-append", p.Pos(fn.Pos()), "Merge does not order the receiver after appending")
